@@ -399,7 +399,8 @@ def sole_winner_cardinal(ctx, stream, count, rng):
     for _ in range(count):
         m = rng.randint(3, 5)
         ids = list(range(1, m + 1))
-        kind = rng.choice(['approval', 'sav', 'score_sum', 'score_sum_unscored0', 'score_sum_unscored_min'])
+        kind = rng.choice(['approval', 'sav', 'score_sum', 'score_sum_unscored0', 'score_sum_unscored_min', 'score_sum_unscored_mean',
+                           'score_sum_unscored_median'])
         ctx.evaluations += 1
         ctx.dist['stream:' + stream] += 1
         if kind in ('approval', 'sav'):
@@ -420,7 +421,7 @@ def sole_winner_cardinal(ctx, stream, count, rng):
                 b = tuple(sorted((k, rng.randint(1 if kind.endswith('min') else 0, 5)) for k in cs))
                 prof[b] = prof.get(b, 0) + rng.randint(1, 4)
             prof = [[[list(x) for x in b], w] for b, w in prof.items()]
-            ev = card.ScoreVoting('sum', unscored_value=(0 if kind.endswith('0') else 'min' if kind.endswith('min') else None))
+            ev = card.ScoreVoting('sum', unscored_value=(0 if kind.endswith('0') else kind.rsplit('_', 1)[1] if kind.count('unscored') else None))
             py = lambda p: {frozenset((cname(k), s) for k, s in b): w for b, w in p}     # noqa
             def moves(b, w):     # noqa
                 for i, (k, s) in enumerate(b):
